@@ -63,7 +63,9 @@ func runBranch(c *Ctx, ec *engCase, batch bool, mask uint, onWait func(s flows.S
 		var trig flows.Trigger
 		switch {
 		case ec.Voice:
-			trig = tb.Manual().WithCall(assets.NewChannelReference("57f1078f-88aa-46f4-a59a-948a5739c03d", "Android"), urns.URN("tel:+12065550100")).Build()
+			// the call's URN as a host passes it: bare, or with the query and display parts a contact's URN carries
+			callURN := []urns.URN{"tel:+12065550100", "tel:+12065550100?id=2345&priority=1000", "tel:+12065550100?channel=57f1078f-88aa-46f4-a59a-948a5739c03d#Ann"}[int(ec.Seed%3+3)%3]
+			trig = tb.Manual().WithCall(assets.NewChannelReference("57f1078f-88aa-46f4-a59a-948a5739c03d", "Android"), callURN).Build()
 		case ec.Trigger == "msg":
 			trig = tb.Msg(er.msgIn("red")).Build()
 		case batch:
